@@ -47,6 +47,7 @@ import (
 	"fmt"
 	"io"
 	"strings"
+	"syscall"
 
 	"github.com/cloudwego/hertz/internal/bytesconv"
 	"github.com/cloudwego/hertz/internal/bytestr"
@@ -209,6 +210,10 @@ func readBodyUntilClose(r network.Reader, maxBodySize int, dst []byte, failOnTim
 			_, err := r.Peek(1)
 			if err != nil {
 				if te, ok := err.(interface{ Timeout() bool }); ok && failOnTimeout && te.Timeout() {
+					return dst[:offset], err
+				}
+				if failOnTimeout && errors.Is(err, syscall.ECONNRESET) {
+					// a connection that was reset did not end, it broke
 					return dst[:offset], err
 				}
 				return dst[:offset], nil
